@@ -261,11 +261,13 @@ def firstOutputs (site : String) : List ERule → Outcome (List DTValue)
       | .panic s => .panic s
 
 /-! `bifs::core::sum / min / max` (`feel-evaluator/src/bifs/core.rs`, `pub fn sum`, `pub fn min`, `pub fn max`)
-restricted to this value type. -/
+restricted to this value type.  `sum += v` is `dec_reduce(dec_add(..))` (`number.rs:283`): as a
+value the exact sum rounded to 34 digits, `DNum.addR`; `*v < min` / `*v > max` are the numeric
+order of `FeelNumber: PartialOrd`. -/
 
-def sumLoop (acc : Int) : List DTValue → DTValue
+def sumLoop (acc : DNum) : List DTValue → DTValue
   | [] => .num acc
-  | .num v :: vs => sumLoop (acc + v) vs
+  | .num v :: vs => sumLoop (DNum.addR acc v) vs
   | _ :: _ => .null
 
 def bifSum : List DTValue → DTValue
@@ -273,7 +275,7 @@ def bifSum : List DTValue → DTValue
   | .num n :: vs => sumLoop n vs
   | _ :: _ => .null
 
-def minNumLoop (m : Int) : List DTValue → DTValue
+def minNumLoop (m : DNum) : List DTValue → DTValue
   | [] => .num m
   | .num v :: vs => minNumLoop (if v < m then v else m) vs
   | _ :: _ => .null
@@ -291,7 +293,7 @@ def bifMin : List DTValue → DTValue
 
 /-- `max`: any item of another kind (null included) makes the result null, as in `min`
 (`core.rs:536-548`, `:550-562`; repaired by 8855d00, before it skipped nulls). -/
-def maxNumLoop (m : Int) : List DTValue → DTValue
+def maxNumLoop (m : DNum) : List DTValue → DTValue
   | [] => .num m
   | .num v :: vs => maxNumLoop (if v > m then v else m) vs
   | _ :: _ => .null
@@ -427,7 +429,7 @@ def key (t : Table) (r : Rule) : List Nat := ranks (outputValues t) r.outputs
 def prioLe (t : Table) (a b : Rule) : Bool := lexLe (key t a) (key t b)
 
 /-- The numbers of a list all of whose items are numbers. -/
-def allNums : List DTValue → Option (List Int)
+def allNums : List DTValue → Option (List DNum)
   | [] => some []
   | .num n :: vs => (allNums vs).map (n :: ·)
   | _ :: _ => none
@@ -438,28 +440,30 @@ def allStrs : List DTValue → Option (List (List Char))
   | .str s :: vs => (allStrs vs).map (s :: ·)
   | _ :: _ => none
 
-def minInt (n : Int) (ns : List Int) : Int := ns.foldl (fun m v => if v < m then v else m) n
-def maxInt (n : Int) (ns : List Int) : Int := ns.foldl (fun m v => if v > m then v else m) n
+def minNum (n : DNum) (ns : List DNum) : DNum := ns.foldl (fun m v => if v < m then v else m) n
+def maxNum (n : DNum) (ns : List DNum) : DNum := ns.foldl (fun m v => if v > m then v else m) n
 def minStr (s : List Char) (ss : List (List Char)) : List Char := ss.foldl (fun m v => if strLt v m then v else m) s
 def maxStr (s : List Char) (ss : List (List Char)) : List Char := ss.foldl (fun m v => if strLt m v then v else m) s
 
-/-- Sum of the values when all are numbers, null otherwise. -/
+/-- Sum of the values when all are numbers, null otherwise: added from the left, each partial
+sum rounded to the 34 digits of a FEEL number (`DNum.addR`); the exact sum `ns.foldl (· + ·) n`
+whenever every partial sum has at most 34 digits (`Props/C03.lean`, `sum_exact`). -/
 def sum (vs : List DTValue) : DTValue :=
   match allNums vs with
-  | some (n :: ns) => .num (ns.foldl (· + ·) n)
+  | some (n :: ns) => .num (ns.foldl DNum.addR n)
   | _ => .null
 
 /-- Minimum when all values are numbers, or all are strings; null otherwise. -/
 def min (vs : List DTValue) : DTValue :=
   match allNums vs, allStrs vs with
-  | some (n :: ns), _ => .num (minInt n ns)
+  | some (n :: ns), _ => .num (minNum n ns)
   | _, some (s :: ss) => .str (minStr s ss)
   | _, _ => .null
 
 /-- Maximum when all values are numbers, or all are strings; null otherwise. -/
 def max (vs : List DTValue) : DTValue :=
   match allNums vs, allStrs vs with
-  | some (n :: ns), _ => .num (maxInt n ns)
+  | some (n :: ns), _ => .num (maxNum n ns)
   | _, some (s :: ss) => .str (maxStr s ss)
   | _, _ => .null
 
